@@ -1001,14 +1001,14 @@ def run(ctx):
         ctx.cov.update({"evaluations": 1, "distinct_nontrivial": len(stats["nontrivial"]), "rule": "replay of one program",
                         "samples": [inp.get("source", "")]})
         return
-    n = int(os.environ.get("C07_N", "0")) or (320 if ctx.quick() else 2400)
+    n = int(os.environ.get("C07_N", "0")) or (320 if ctx.quick() else 1600)
     cases = [gen_program(ctx.rng, big=(i % 3 == 2)) for i in range(n)]
     stats = new_stats()
     models, recs, recsm = run_batch(ctx, cases, "c07", stats)
     fails = compare(ctx, cases, models, recs, recsm, stats)
     report(ctx, cases, models, fails, stats)
     finding_probe(ctx)
-    other_reference(ctx, cases, models, recs, 32 if ctx.quick() else 300)
+    other_reference(ctx, cases, models, recs, 32 if ctx.quick() else 200)
     feats = {}
     for c in cases:
         for f in c["features"]:
